@@ -266,7 +266,20 @@ class Run:
         if race:
             cmd.append("-race")
         cmd.append("./cmd/driver")
-        p = subprocess.run(cmd, cwd=HARNESS, env=e, stdout=subprocess.PIPE, stderr=subprocess.STDOUT)
+        harness = HARNESS
+        alt = os.environ.get("VERIF_REPO")
+        if alt and os.path.realpath(alt) != "/repo":
+            # development aid (background runs on a snapshot of the repository): the registered commands never set it
+            harness = self.path("harness-alt", "x")
+            harness = os.path.dirname(harness)
+            shutil.rmtree(harness, ignore_errors=True)
+            shutil.copytree(HARNESS, harness)
+            with open(os.path.join(harness, "go.mod")) as f:
+                gm = f.read().replace("=> /repo", "=> " + os.path.realpath(alt))
+            with open(os.path.join(harness, "go.mod"), "w") as f:
+                f.write(gm)
+            log("driver built against", alt)
+        p = subprocess.run(cmd, cwd=harness, env=e, stdout=subprocess.PIPE, stderr=subprocess.STDOUT)
         if p.returncode != 0:
             raise MachineryError("go build failed:\n" + p.stdout.decode("utf-8", "replace")[-4000:])
         self._drivers[key] = out
